@@ -1,3 +1,275 @@
 import MgModel.C12.Ciphers
+import MgProof.C12.Lemmas
+/-!
+# C12 — AES (FIPS-197): `InvCipher ∘ Cipher = id` for every key schedule
+
+Ingredients: `InvSubBytes ∘ SubBytes = id` (the two 256-entry tables, `decide`),
+`InvShiftRows ∘ ShiftRows = id` (16 positions), `InvMixColumns ∘ MixColumns = id`
+(GF(2)-linearity of `xtime` + four byte identities checked on all 256 bytes),
+`AddRoundKey` is an involution, and an induction over the list of round keys.
+-/
 namespace MgProof.C12
+open MgModel.C12 MgModel.C12.Aes
+
+/-! ## SubBytes -/
+
+set_option maxRecDepth 100000 in
+theorem invSub_sub_nat : ∀ n, n < 256 → invSub (sub (BitVec.ofNat 8 n)) = BitVec.ofNat 8 n := by
+  decide
+
+theorem invSub_sub (b : Byte) : invSub (sub b) = b := by
+  have := invSub_sub_nat b.toNat b.isLt
+  simpa using this
+
+set_option maxRecDepth 100000 in
+theorem sub_invSub_nat : ∀ n, n < 256 → sub (invSub (BitVec.ofNat 8 n)) = BitVec.ofNat 8 n := by
+  decide
+
+theorem sub_invSub (b : Byte) : sub (invSub b) = b := by
+  have := sub_invSub_nat b.toNat b.isLt
+  simpa using this
+
+theorem invSubBytes_subBytes (s : Bytes) : invSubBytes (subBytes s) = s := by
+  simp [invSubBytes, subBytes, Function.comp_def, invSub_sub]
+
+/-! ## MixColumns -/
+
+theorem xtime_xor (a b : Byte) : xtime (a ^^^ b) = xtime a ^^^ xtime b := by
+  unfold xtime
+  rw [BitVec.msb_xor, BitVec.shiftLeft_xor_distrib]
+  cases a.msb <;> cases b.msb <;> simp
+  · ac_rfl
+  · ac_rfl
+  · rw [show ∀ p q k : Byte, p ^^^ k ^^^ (q ^^^ k) = p ^^^ q ^^^ (k ^^^ k) from by intros; ac_rfl]
+    simp
+
+theorem gmulAux_xor (fuel a : Nat) : ∀ x y : Byte,
+    gmulAux fuel a (x ^^^ y) = gmulAux fuel a x ^^^ gmulAux fuel a y := by
+  induction fuel generalizing a with
+  | zero => intro x y; simp [gmulAux]
+  | succ f ih =>
+    intro x y
+    simp only [gmulAux, xtime_xor, ih]
+    split
+    · ac_rfl
+    · simp
+
+/-- multiplication by a constant of GF(2^8) is additive -/
+theorem gmul_xor (a : Nat) (x y : Byte) : gmul a (x ^^^ y) = gmul a x ^^^ gmul a y :=
+  gmulAux_xor 8 a x y
+
+/-- regrouping a 4x4 matrix-vector product: additive `f`s applied to rows -/
+theorem regroup (f0 f1 f2 f3 : Byte → Byte)
+    (h0 : ∀ x y, f0 (x ^^^ y) = f0 x ^^^ f0 y) (h1 : ∀ x y, f1 (x ^^^ y) = f1 x ^^^ f1 y)
+    (h2 : ∀ x y, f2 (x ^^^ y) = f2 x ^^^ f2 y) (h3 : ∀ x y, f3 (x ^^^ y) = f3 x ^^^ f3 y)
+    (p0 p1 p2 p3 q0 q1 q2 q3 r0 r1 r2 r3 s0 s1 s2 s3 : Byte) :
+    f0 (p0 ^^^ p1 ^^^ p2 ^^^ p3) ^^^ f1 (q0 ^^^ q1 ^^^ q2 ^^^ q3) ^^^ f2 (r0 ^^^ r1 ^^^ r2 ^^^ r3)
+      ^^^ f3 (s0 ^^^ s1 ^^^ s2 ^^^ s3) =
+    (f0 p0 ^^^ f1 q0 ^^^ f2 r0 ^^^ f3 s0) ^^^ (f0 p1 ^^^ f1 q1 ^^^ f2 r1 ^^^ f3 s1) ^^^
+    (f0 p2 ^^^ f1 q2 ^^^ f2 r2 ^^^ f3 s2) ^^^ (f0 p3 ^^^ f1 q3 ^^^ f2 r3 ^^^ f3 s3) := by
+  simp only [h0, h1, h2, h3]
+  ac_rfl
+
+set_option maxRecDepth 100000 in
+/-- the four entries of one row of `M⁻¹ · M` over GF(2^8), on every byte: the products
+`{0e·02, 0b, 0d, 09·03}` sum to the identity, the three others to zero (FIPS-197 §5.3.3) -/
+theorem mixid_nat : ∀ n, n < 256 →
+    (let x := BitVec.ofNat 8 n
+     gmul 14 (gmul 2 x) ^^^ gmul 11 x ^^^ gmul 13 x ^^^ gmul 9 (gmul 3 x) = x ∧
+     gmul 14 (gmul 3 x) ^^^ gmul 11 (gmul 2 x) ^^^ gmul 13 x ^^^ gmul 9 x = 0 ∧
+     gmul 14 x ^^^ gmul 11 (gmul 3 x) ^^^ gmul 13 (gmul 2 x) ^^^ gmul 9 x = 0 ∧
+     gmul 14 x ^^^ gmul 11 x ^^^ gmul 13 (gmul 3 x) ^^^ gmul 9 (gmul 2 x) = 0) := by
+  decide
+
+theorem S1 (x : Byte) : gmul 14 (gmul 2 x) ^^^ gmul 11 x ^^^ gmul 13 x ^^^ gmul 9 (gmul 3 x) = x := by
+  have := (mixid_nat x.toNat x.isLt).1; simpa using this
+theorem S2 (x : Byte) : gmul 14 (gmul 3 x) ^^^ gmul 11 (gmul 2 x) ^^^ gmul 13 x ^^^ gmul 9 x = 0 := by
+  have := (mixid_nat x.toNat x.isLt).2.1; simpa using this
+theorem S3 (x : Byte) : gmul 14 x ^^^ gmul 11 (gmul 3 x) ^^^ gmul 13 (gmul 2 x) ^^^ gmul 9 x = 0 := by
+  have := (mixid_nat x.toNat x.isLt).2.2.1; simpa using this
+theorem S4 (x : Byte) : gmul 14 x ^^^ gmul 11 x ^^^ gmul 13 (gmul 3 x) ^^^ gmul 9 (gmul 2 x) = 0 := by
+  have := (mixid_nat x.toNat x.isLt).2.2.2; simpa using this
+
+/-- `InvMixColumns ∘ MixColumns = id` on one column, for all 2^32 columns -/
+theorem invMixCol_mixCol (a0 a1 a2 a3 : Byte) :
+    invMixCol (gmul 2 a0 ^^^ gmul 3 a1 ^^^ a2 ^^^ a3)
+      (a0 ^^^ gmul 2 a1 ^^^ gmul 3 a2 ^^^ a3)
+      (a0 ^^^ a1 ^^^ gmul 2 a2 ^^^ gmul 3 a3)
+      (gmul 3 a0 ^^^ a1 ^^^ a2 ^^^ gmul 2 a3) = [a0, a1, a2, a3] := by
+  unfold invMixCol
+  rw [regroup (gmul 14) (gmul 11) (gmul 13) (gmul 9) (gmul_xor _) (gmul_xor _) (gmul_xor _) (gmul_xor _)]
+  have g00 : gmul 14 (gmul 2 a0) ^^^ gmul 11 a0 ^^^ gmul 13 a0 ^^^ gmul 9 (gmul 3 a0) = a0 := by
+    rw [show gmul 14 (gmul 2 a0) ^^^ gmul 11 a0 ^^^ gmul 13 a0 ^^^ gmul 9 (gmul 3 a0) = gmul 14 (gmul 2 a0) ^^^ gmul 11 a0 ^^^ gmul 13 a0 ^^^ gmul 9 (gmul 3 a0) from by ac_rfl]; exact S1 a0
+  have g01 : gmul 14 (gmul 3 a1) ^^^ gmul 11 (gmul 2 a1) ^^^ gmul 13 a1 ^^^ gmul 9 a1 = 0 := by
+    rw [show gmul 14 (gmul 3 a1) ^^^ gmul 11 (gmul 2 a1) ^^^ gmul 13 a1 ^^^ gmul 9 a1 = gmul 14 (gmul 3 a1) ^^^ gmul 11 (gmul 2 a1) ^^^ gmul 13 a1 ^^^ gmul 9 a1 from by ac_rfl]; exact S2 a1
+  have g02 : gmul 14 a2 ^^^ gmul 11 (gmul 3 a2) ^^^ gmul 13 (gmul 2 a2) ^^^ gmul 9 a2 = 0 := by
+    rw [show gmul 14 a2 ^^^ gmul 11 (gmul 3 a2) ^^^ gmul 13 (gmul 2 a2) ^^^ gmul 9 a2 = gmul 14 a2 ^^^ gmul 11 (gmul 3 a2) ^^^ gmul 13 (gmul 2 a2) ^^^ gmul 9 a2 from by ac_rfl]; exact S3 a2
+  have g03 : gmul 14 a3 ^^^ gmul 11 a3 ^^^ gmul 13 (gmul 3 a3) ^^^ gmul 9 (gmul 2 a3) = 0 := by
+    rw [show gmul 14 a3 ^^^ gmul 11 a3 ^^^ gmul 13 (gmul 3 a3) ^^^ gmul 9 (gmul 2 a3) = gmul 14 a3 ^^^ gmul 11 a3 ^^^ gmul 13 (gmul 3 a3) ^^^ gmul 9 (gmul 2 a3) from by ac_rfl]; exact S4 a3
+  rw [g00, g01, g02, g03]
+  rw [regroup (gmul 9) (gmul 14) (gmul 11) (gmul 13) (gmul_xor _) (gmul_xor _) (gmul_xor _) (gmul_xor _)]
+  have g10 : gmul 9 (gmul 2 a0) ^^^ gmul 14 a0 ^^^ gmul 11 a0 ^^^ gmul 13 (gmul 3 a0) = 0 := by
+    rw [show gmul 9 (gmul 2 a0) ^^^ gmul 14 a0 ^^^ gmul 11 a0 ^^^ gmul 13 (gmul 3 a0) = gmul 14 a0 ^^^ gmul 11 a0 ^^^ gmul 13 (gmul 3 a0) ^^^ gmul 9 (gmul 2 a0) from by ac_rfl]; exact S4 a0
+  have g11 : gmul 9 (gmul 3 a1) ^^^ gmul 14 (gmul 2 a1) ^^^ gmul 11 a1 ^^^ gmul 13 a1 = a1 := by
+    rw [show gmul 9 (gmul 3 a1) ^^^ gmul 14 (gmul 2 a1) ^^^ gmul 11 a1 ^^^ gmul 13 a1 = gmul 14 (gmul 2 a1) ^^^ gmul 11 a1 ^^^ gmul 13 a1 ^^^ gmul 9 (gmul 3 a1) from by ac_rfl]; exact S1 a1
+  have g12 : gmul 9 a2 ^^^ gmul 14 (gmul 3 a2) ^^^ gmul 11 (gmul 2 a2) ^^^ gmul 13 a2 = 0 := by
+    rw [show gmul 9 a2 ^^^ gmul 14 (gmul 3 a2) ^^^ gmul 11 (gmul 2 a2) ^^^ gmul 13 a2 = gmul 14 (gmul 3 a2) ^^^ gmul 11 (gmul 2 a2) ^^^ gmul 13 a2 ^^^ gmul 9 a2 from by ac_rfl]; exact S2 a2
+  have g13 : gmul 9 a3 ^^^ gmul 14 a3 ^^^ gmul 11 (gmul 3 a3) ^^^ gmul 13 (gmul 2 a3) = 0 := by
+    rw [show gmul 9 a3 ^^^ gmul 14 a3 ^^^ gmul 11 (gmul 3 a3) ^^^ gmul 13 (gmul 2 a3) = gmul 14 a3 ^^^ gmul 11 (gmul 3 a3) ^^^ gmul 13 (gmul 2 a3) ^^^ gmul 9 a3 from by ac_rfl]; exact S3 a3
+  rw [g10, g11, g12, g13]
+  rw [regroup (gmul 13) (gmul 9) (gmul 14) (gmul 11) (gmul_xor _) (gmul_xor _) (gmul_xor _) (gmul_xor _)]
+  have g20 : gmul 13 (gmul 2 a0) ^^^ gmul 9 a0 ^^^ gmul 14 a0 ^^^ gmul 11 (gmul 3 a0) = 0 := by
+    rw [show gmul 13 (gmul 2 a0) ^^^ gmul 9 a0 ^^^ gmul 14 a0 ^^^ gmul 11 (gmul 3 a0) = gmul 14 a0 ^^^ gmul 11 (gmul 3 a0) ^^^ gmul 13 (gmul 2 a0) ^^^ gmul 9 a0 from by ac_rfl]; exact S3 a0
+  have g21 : gmul 13 (gmul 3 a1) ^^^ gmul 9 (gmul 2 a1) ^^^ gmul 14 a1 ^^^ gmul 11 a1 = 0 := by
+    rw [show gmul 13 (gmul 3 a1) ^^^ gmul 9 (gmul 2 a1) ^^^ gmul 14 a1 ^^^ gmul 11 a1 = gmul 14 a1 ^^^ gmul 11 a1 ^^^ gmul 13 (gmul 3 a1) ^^^ gmul 9 (gmul 2 a1) from by ac_rfl]; exact S4 a1
+  have g22 : gmul 13 a2 ^^^ gmul 9 (gmul 3 a2) ^^^ gmul 14 (gmul 2 a2) ^^^ gmul 11 a2 = a2 := by
+    rw [show gmul 13 a2 ^^^ gmul 9 (gmul 3 a2) ^^^ gmul 14 (gmul 2 a2) ^^^ gmul 11 a2 = gmul 14 (gmul 2 a2) ^^^ gmul 11 a2 ^^^ gmul 13 a2 ^^^ gmul 9 (gmul 3 a2) from by ac_rfl]; exact S1 a2
+  have g23 : gmul 13 a3 ^^^ gmul 9 a3 ^^^ gmul 14 (gmul 3 a3) ^^^ gmul 11 (gmul 2 a3) = 0 := by
+    rw [show gmul 13 a3 ^^^ gmul 9 a3 ^^^ gmul 14 (gmul 3 a3) ^^^ gmul 11 (gmul 2 a3) = gmul 14 (gmul 3 a3) ^^^ gmul 11 (gmul 2 a3) ^^^ gmul 13 a3 ^^^ gmul 9 a3 from by ac_rfl]; exact S2 a3
+  rw [g20, g21, g22, g23]
+  rw [regroup (gmul 11) (gmul 13) (gmul 9) (gmul 14) (gmul_xor _) (gmul_xor _) (gmul_xor _) (gmul_xor _)]
+  have g30 : gmul 11 (gmul 2 a0) ^^^ gmul 13 a0 ^^^ gmul 9 a0 ^^^ gmul 14 (gmul 3 a0) = 0 := by
+    rw [show gmul 11 (gmul 2 a0) ^^^ gmul 13 a0 ^^^ gmul 9 a0 ^^^ gmul 14 (gmul 3 a0) = gmul 14 (gmul 3 a0) ^^^ gmul 11 (gmul 2 a0) ^^^ gmul 13 a0 ^^^ gmul 9 a0 from by ac_rfl]; exact S2 a0
+  have g31 : gmul 11 (gmul 3 a1) ^^^ gmul 13 (gmul 2 a1) ^^^ gmul 9 a1 ^^^ gmul 14 a1 = 0 := by
+    rw [show gmul 11 (gmul 3 a1) ^^^ gmul 13 (gmul 2 a1) ^^^ gmul 9 a1 ^^^ gmul 14 a1 = gmul 14 a1 ^^^ gmul 11 (gmul 3 a1) ^^^ gmul 13 (gmul 2 a1) ^^^ gmul 9 a1 from by ac_rfl]; exact S3 a1
+  have g32 : gmul 11 a2 ^^^ gmul 13 (gmul 3 a2) ^^^ gmul 9 (gmul 2 a2) ^^^ gmul 14 a2 = 0 := by
+    rw [show gmul 11 a2 ^^^ gmul 13 (gmul 3 a2) ^^^ gmul 9 (gmul 2 a2) ^^^ gmul 14 a2 = gmul 14 a2 ^^^ gmul 11 a2 ^^^ gmul 13 (gmul 3 a2) ^^^ gmul 9 (gmul 2 a2) from by ac_rfl]; exact S4 a2
+  have g33 : gmul 11 a3 ^^^ gmul 13 a3 ^^^ gmul 9 (gmul 3 a3) ^^^ gmul 14 (gmul 2 a3) = a3 := by
+    rw [show gmul 11 a3 ^^^ gmul 13 a3 ^^^ gmul 9 (gmul 3 a3) ^^^ gmul 14 (gmul 2 a3) = gmul 14 (gmul 2 a3) ^^^ gmul 11 a3 ^^^ gmul 13 a3 ^^^ gmul 9 (gmul 3 a3) from by ac_rfl]; exact S1 a3
+  rw [g30, g31, g32, g33]
+  simp
+
+theorem invMixColumns_mixColumns16 (a0 a1 a2 a3 a4 a5 a6 a7 a8 a9 a10 a11 a12 a13 a14 a15 : Byte) :
+    invMixColumns (mixColumns [a0, a1, a2, a3, a4, a5, a6, a7, a8, a9, a10, a11, a12, a13, a14, a15]) =
+      [a0, a1, a2, a3, a4, a5, a6, a7, a8, a9, a10, a11, a12, a13, a14, a15] := by
+  simp only [mixColumns, mixCol, List.cons_append, List.nil_append, invMixColumns, invMixCol_mixCol]
+
+/-! ## destructuring a 16-byte state -/
+
+theorem list16 {α} (s : List α) (h : s.length = 16) :
+    ∃ a0 a1 a2 a3 a4 a5 a6 a7 a8 a9 a10 a11 a12 a13 a14 a15,
+      s = [a0, a1, a2, a3, a4, a5, a6, a7, a8, a9, a10, a11, a12, a13, a14, a15] := by
+  match s, h with
+  | [a0, a1, a2, a3, a4, a5, a6, a7, a8, a9, a10, a11, a12, a13, a14, a15], _ =>
+    exact ⟨a0, a1, a2, a3, a4, a5, a6, a7, a8, a9, a10, a11, a12, a13, a14, a15, rfl⟩
+
+theorem invMixColumns_mixColumns (s : Bytes) (h : s.length = 16) :
+    invMixColumns (mixColumns s) = s := by
+  obtain ⟨a0, a1, a2, a3, a4, a5, a6, a7, a8, a9, a10, a11, a12, a13, a14, a15, rfl⟩ := list16 s h
+  exact invMixColumns_mixColumns16 ..
+
+theorem mixColumns_length (s : Bytes) (h : s.length = 16) : (mixColumns s).length = 16 := by
+  obtain ⟨a0, a1, a2, a3, a4, a5, a6, a7, a8, a9, a10, a11, a12, a13, a14, a15, rfl⟩ := list16 s h
+  simp [mixColumns, mixCol]
+
+/-! ## ShiftRows -/
+
+theorem invShiftRows_shiftRows (s : Bytes) (h : s.length = 16) : invShiftRows (shiftRows s) = s := by
+  obtain ⟨a0, a1, a2, a3, a4, a5, a6, a7, a8, a9, a10, a11, a12, a13, a14, a15, rfl⟩ := list16 s h
+  rfl
+
+theorem shiftRows_length (s : Bytes) : (shiftRows s).length = 16 := by
+  simp [shiftRows, shiftIdx]
+
+theorem subBytes_length (s : Bytes) : (subBytes s).length = s.length := by simp [subBytes]
+
+theorem addRoundKey_length (k s : Bytes) (hk : k.length = 16) (hs : s.length = 16) :
+    (addRoundKey k s).length = 16 := by simp [addRoundKey, xorBytes_length, hk, hs]
+
+theorem addRoundKey_cancel (k s : Bytes) (hk : k.length = 16) (hs : s.length = 16) :
+    addRoundKey k (addRoundKey k s) = s := by
+  simp only [addRoundKey]; exact xorBytes_cancel s k (by omega)
+
+/-! ## Cipher / InvCipher -/
+
+/-- one full round / its inverse -/
+def fullRound (k s : Bytes) : Bytes := addRoundKey k (mixColumns (shiftRows (subBytes s)))
+def invFullRound (k t : Bytes) : Bytes := invMixColumns (addRoundKey k (invSubBytes (invShiftRows t)))
+
+/-- rounds 1..Nr-1 -/
+def mid : List Bytes → Bytes → Bytes
+  | [], s => s
+  | k :: ks, s => mid ks (fullRound k s)
+
+def dmid : List Bytes → Bytes → Bytes
+  | [], t => t
+  | k :: ks, t => dmid ks (invFullRound k t)
+
+theorem encRounds_cons (k : Bytes) (ks : List Bytes) (hks : ks ≠ []) (s : Bytes) :
+    encRounds (k :: ks) s = encRounds ks (fullRound k s) := by
+  cases ks with
+  | nil => exact absurd rfl hks
+  | cons k' ks' => rfl
+
+theorem decRounds_cons (k : Bytes) (ks : List Bytes) (hks : ks ≠ []) (s : Bytes) :
+    decRounds (k :: ks) s = decRounds ks (invFullRound k s) := by
+  cases ks with
+  | nil => exact absurd rfl hks
+  | cons k' ks' => rfl
+
+theorem encRounds_snoc (ks : List Bytes) (kN : Bytes) : ∀ s,
+    encRounds (ks ++ [kN]) s = addRoundKey kN (shiftRows (subBytes (mid ks s))) := by
+  induction ks with
+  | nil => intro s; rfl
+  | cons k ks ih =>
+    intro s
+    rw [List.cons_append, encRounds_cons k _ (by simp), ih]; rfl
+
+theorem decRounds_snoc (ks : List Bytes) (k0 : Bytes) : ∀ t,
+    decRounds (ks ++ [k0]) t = addRoundKey k0 (invSubBytes (invShiftRows (dmid ks t))) := by
+  induction ks with
+  | nil => intro t; rfl
+  | cons k ks ih =>
+    intro t
+    rw [List.cons_append, decRounds_cons k _ (by simp), ih]; rfl
+
+theorem dmid_append (a b : List Bytes) : ∀ t, dmid (a ++ b) t = dmid b (dmid a t) := by
+  induction a with
+  | nil => intro t; rfl
+  | cons k a ih => intro t; simp [dmid, ih]
+
+theorem fullRound_length (k s : Bytes) (hk : k.length = 16) : (fullRound k s).length = 16 :=
+  addRoundKey_length k _ hk (mixColumns_length _ (shiftRows_length _))
+
+theorem invFullRound_fullRound (k s : Bytes) (hk : k.length = 16) (hs : s.length = 16) :
+    invSubBytes (invShiftRows (invMixColumns (addRoundKey k (fullRound k s)))) = s := by
+  unfold fullRound
+  rw [addRoundKey_cancel k _ hk (mixColumns_length _ (shiftRows_length _)),
+    invMixColumns_mixColumns _ (shiftRows_length _),
+    invShiftRows_shiftRows _ (by rw [subBytes_length]; exact hs), invSubBytes_subBytes]
+
+theorem mid_undo : ∀ (ks : List Bytes) (s : Bytes), (∀ k ∈ ks, k.length = 16) → s.length = 16 →
+    invSubBytes (invShiftRows (dmid ks.reverse (shiftRows (subBytes (mid ks s))))) = s := by
+  intro ks
+  induction ks with
+  | nil =>
+    intro s _ hs
+    simp only [mid, List.reverse_nil, dmid]
+    rw [invShiftRows_shiftRows _ (by rw [subBytes_length]; exact hs), invSubBytes_subBytes]
+  | cons k ks ih =>
+    intro s hks hs
+    have hk : k.length = 16 := hks k (by simp)
+    simp only [mid, List.reverse_cons, dmid_append, dmid, invFullRound]
+    rw [ih (fullRound k s) (fun k' h => hks k' (by simp [h])) (fullRound_length k s hk)]
+    exact invFullRound_fullRound k s hk hs
+
+/-- **FIPS-197: `InvCipher(Cipher(in, w), w) = in`** for every list of 16-byte round keys -/
+theorem invCipher_cipher (rks : List Bytes) (b : Bytes) (hk : ∀ k ∈ rks, k.length = 16)
+    (hb : b.length = 16) : invCipher rks (cipher rks b) = b := by
+  cases rks with
+  | nil => rfl
+  | cons k0 ks =>
+    have hk0 : k0.length = 16 := hk k0 (by simp)
+    rcases List.eq_nil_or_concat ks with rfl | ⟨ks', kN, rfl⟩
+    · simp only [cipher, encRounds, invCipher, List.reverse_cons, List.reverse_nil, List.nil_append, decRounds]
+      exact addRoundKey_cancel k0 b hk0 hb
+    · have hkN : kN.length = 16 := hk kN (by simp)
+      have hks' : ∀ k ∈ ks', k.length = 16 := fun k h => hk k (by simp [h])
+      simp only [cipher, invCipher, List.concat_eq_append, encRounds_snoc, List.reverse_cons,
+        List.reverse_append, List.reverse_nil, List.nil_append, List.cons_append]
+      show decRounds (ks'.reverse ++ [k0]) _ = b
+      rw [decRounds_snoc, addRoundKey_cancel kN _ hkN (shiftRows_length _),
+        mid_undo ks' _ hks' (addRoundKey_length k0 b hk0 hb)]
+      exact addRoundKey_cancel k0 b hk0 hb
+
 end MgProof.C12
